@@ -462,7 +462,6 @@ func isLenCond(cd ir.Cond) bool {
 	return a || b
 }
 
-
 // anchorsIn returns the instructions of root through which ins is reached: ins
 // itself when it sits in root, otherwise the call sites in root that lead
 // (through private helpers) to the function of ins.
